@@ -56,6 +56,13 @@ const hubProps = "INVARIANTS TypeOK Refines Complete VerifyNeverInForce Provisio
 // exportHubGraph model-checks Revocation.tla for one configuration (all listed properties) and
 // returns the complete labelled transition graph of that configuration.
 func exportHubGraph(c *vk.Ctx, cfg HubCfg, dev []string) (*graph.Graph, tlcrun.Result) {
+	gs, res := exportHubGraphs(c, []HubCfg{cfg}, dev, 0)
+	return gs[0], res
+}
+
+// exportHubGraphs explores several configurations in one TLC run (cfg is chosen in Init) and splits the
+// exported edges by configuration. maxSteps = 0 explores the complete graphs.
+func exportHubGraphs(c *vk.Ctx, cfgs []HubCfg, dev []string, maxSteps int) ([]*graph.Graph, tlcrun.Result) {
 	devs := "{}"
 	if len(dev) > 0 {
 		q := make([]string, len(dev))
@@ -64,48 +71,74 @@ func exportHubGraph(c *vk.Ctx, cfg HubCfg, dev []string) (*graph.Graph, tlcrun.R
 		}
 		devs = "{" + strings.Join(q, ", ") + "}"
 	}
-	mc := fmt.Sprintf("---- MODULE MCRev ----\nEXTENDS Revocation\nCfgVal == %s\nDevVal == %s\n====\n", cfg.TLA(), devs)
-	cfgText := "SPECIFICATION Spec\nCONSTANTS\n Dev <- DevVal\n Cfg <- CfgVal\n MaxSteps = 0\n Export = TRUE\n" + hubProps + "CHECK_DEADLOCK FALSE\nVIEW View\n"
-	g := graph.New()
+	var recs []string
+	index := map[string]int{}
+	for i, cfg := range cfgs {
+		recs = append(recs, cfg.TLA())
+		index[cfg.String()] = i
+	}
+	mc := fmt.Sprintf("---- MODULE MCRev ----\nEXTENDS Revocation\nCfgVal == {%s}\nDevVal == %s\n====\n", strings.Join(recs, ",\n  "), devs)
+	cfgText := fmt.Sprintf("SPECIFICATION Spec\nCONSTANTS\n Dev <- DevVal\n CfgSpace <- CfgVal\n MaxSteps = %d\n Export = TRUE\n", maxSteps) + hubProps + "CHECK_DEADLOCK FALSE\nVIEW View\n"
+	gs := make([]*graph.Graph, len(cfgs))
+	for i := range gs {
+		gs[i] = graph.New()
+	}
 	var perr error
 	res := tlcrun.Run(tlcrun.Options{SpecDir: vk.SpecDir(), Module: "MCRev", Config: cfgText, Workers: 4,
 		Files: map[string][]byte{"MCRev.tla": []byte(mc)},
 		OnTagged: func(tag string, p json.RawMessage) {
-			if tag == "EDGE" {
-				if err := g.AddPayload(p); err != nil {
-					perr = err
-				}
+			if tag != "EDGE" {
+				return
+			}
+			var hdr struct {
+				From struct {
+					Cfg HubCfg `json:"cfg"`
+				} `json:"from"`
+			}
+			if err := json.Unmarshal(p, &hdr); err != nil {
+				perr = err
+				return
+			}
+			i, ok := index[hdr.From.Cfg.String()]
+			if !ok {
+				perr = fmt.Errorf("edge for unknown cfg %s", hdr.From.Cfg)
+				return
+			}
+			if err := gs[i].AddPayload(p); err != nil {
+				perr = err
 			}
 		}})
 	if res.InfraErr != nil {
-		c.Infra("tlc Revocation (%s): %v", cfg, res.InfraErr)
+		c.Infra("tlc Revocation: %v", res.InfraErr)
 	}
 	if !res.OK {
-		c.Infra("Revocation.tla violates its properties for %s (specification problem, not a verdict about the code):\n%s", cfg, res.Violation)
+		c.Infra("Revocation.tla violates its properties (specification problem, not a verdict about the code):\n%s", res.Violation)
 	}
 	if perr != nil {
 		c.Infra("edge payload: %v", perr)
 	}
-	g.Finish("")
-	// the initial state: phase new, nothing known, nothing stored
-	for s, raw := range g.State {
-		var st struct {
-			Phase string `json:"phase"`
-			Ent   map[string]struct {
-				Meta bool  `json:"meta"`
-				Locs bool  `json:"locs"`
-				Keys []any `json:"keys"`
-			} `json:"ent"`
+	for i, g := range gs {
+		g.Finish("")
+		// the initial state: phase new, nothing known, nothing stored
+		for s, raw := range g.State {
+			var st struct {
+				Phase string `json:"phase"`
+				Ent   map[string]struct {
+					Meta bool  `json:"meta"`
+					Locs bool  `json:"locs"`
+					Keys []any `json:"keys"`
+				} `json:"ent"`
+			}
+			json.Unmarshal(raw, &st)
+			if st.Phase == "new" && !st.Ent["D"].Meta && !st.Ent["U"].Meta && !st.Ent["D"].Locs && !st.Ent["U"].Locs && len(st.Ent["D"].Keys) == 0 && len(st.Ent["U"].Keys) == 0 {
+				g.Init = s
+			}
 		}
-		json.Unmarshal(raw, &st)
-		if st.Phase == "new" && !st.Ent["D"].Meta && !st.Ent["U"].Meta && !st.Ent["D"].Locs && !st.Ent["U"].Locs && len(st.Ent["D"].Keys) == 0 && len(st.Ent["U"].Keys) == 0 {
-			g.Init = s
+		if g.Init == "" {
+			c.Infra("initial state not found in exported Revocation graph of %s", cfgs[i])
 		}
 	}
-	if g.Init == "" {
-		c.Infra("initial state not found in exported Revocation graph")
-	}
-	return g, res
+	return gs, res
 }
 
 // ---------------------------------------------------------------------------------------------
@@ -132,22 +165,23 @@ type hubExpect struct {
 }
 
 type hubWorld struct {
-	cfg      HubCfg
-	shape    Shape
-	rng      *rand.Rand
-	w        *world.World
-	hooks    *world.HookState
-	org      *origin.Server
-	cas      map[string]*pki.CA
-	leaves   map[string]*pki.Leaf
-	chains   map[string][][]*x509.Certificate
-	uFile    string
-	idOf     map[string]string // "D"/"U" -> repository identifier (learnt by observation)
-	number   int64
-	lastDoc  map[string]hubDoc
-	sawRej   bool // some fetched document was rejected earlier in this walk
-	poisoned bool // a call never returned: the validator holds locks forever, do not touch it again
-	ocspHits int
+	cfg          HubCfg
+	shape        Shape
+	rng          *rand.Rand
+	w            *world.World
+	hooks        *world.HookState
+	org          *origin.Server
+	cas          map[string]*pki.CA
+	leaves       map[string]*pki.Leaf
+	chains       map[string][][]*x509.Certificate
+	uFile        string
+	idOf         map[string]string // "D"/"U" -> repository identifier (learnt by observation)
+	number       int64
+	lastDoc      map[string]hubDoc
+	sawRej       bool // some fetched document was rejected earlier in this walk
+	poisoned     bool // a call never returned: the validator holds locks forever, do not touch it again
+	chainVariant string
+	ocspHits     int
 }
 
 const (
@@ -164,7 +198,15 @@ func newHubWorld(cfg HubCfg, shape Shape, seed int64) (*hubWorld, error) {
 	if seed%3 == 0 {
 		alg = "rsa"
 	}
-	h.cas["A"] = pki.NewCA(pki.CAOpts{Name: "Hub CA n1", Alg: alg, RSAIndex: 0, Serial: 101})
+	var rootA *pki.CA
+	h.chainVariant = []string{"flat", "inter", "two"}[int(seed/7)%3]
+	if h.chainVariant == "inter" {
+		// the issuer of the leaves is an intermediate; the chain is leaf, intermediate, root
+		rootA = pki.NewCA(pki.CAOpts{Name: "Hub Root above n1", Serial: 100})
+		h.cas["A"] = pki.NewCA(pki.CAOpts{Name: "Hub CA n1", Alg: alg, RSAIndex: 0, Serial: 101, Parent: rootA})
+	} else {
+		h.cas["A"] = pki.NewCA(pki.CAOpts{Name: "Hub CA n1", Alg: alg, RSAIndex: 0, Serial: 101})
+	}
 	sOpts := pki.CAOpts{Name: "Hub CA n1", Alg: alg, RSAIndex: 1, Serial: 102}
 	if seed%2 == 0 {
 		sOpts.SKI = h.cas["A"].Cert.SubjectKeyId // sibling that also claims A's key identifier
@@ -184,6 +226,17 @@ func newHubWorld(cfg HubCfg, shape Shape, seed int64) (*hubWorld, error) {
 	h.chains["c1"] = pki.Chain(h.leaves["c1"].Cert, h.cas["A"])
 	h.chains["c2"] = pki.Chain(h.leaves["c2"].Cert, h.cas["A"])
 	h.chains["c3"] = pki.Chain(h.leaves["c3"].Cert, h.cas["B"])
+	switch h.chainVariant {
+	case "inter":
+		h.chains["c1"] = pki.Chain(h.leaves["c1"].Cert, h.cas["A"], rootA)
+		h.chains["c2"] = pki.Chain(h.leaves["c2"].Cert, h.cas["A"], rootA)
+	case "two":
+		// a second verified chain through a cross-signing root
+		cross := pki.NewCA(pki.CAOpts{Name: "Hub Cross Root", Serial: 104})
+		for _, id := range []string{"c1", "c2"} {
+			h.chains[id] = append(h.chains[id], []*x509.Certificate{h.leaves[id].Cert, h.cas["A"].Cert, cross.Cert})
+		}
+	}
 	if cfg.Ocsp == "good" || cfg.Ocsp == "revoked" {
 		st := ocsp.Good
 		if cfg.Ocsp == "revoked" {
@@ -336,19 +389,22 @@ type hubStep struct {
 
 // hubObs is what the predicates see for one executed step.
 type hubObs struct {
-	Cfg     HubCfg
-	Op      []any
-	Exp     hubExpect
-	Verdict string // real verdict (handshake)
-	Err     string
-	ProvOK  bool
-	ProvErr string
-	Loaded  map[string]bool
-	Fetched map[string]int
-	SawRej  bool
-	Cdp     string
-	Hist    []hubStep
-	Shape   Shape
+	Cfg            HubCfg
+	Op             []any
+	Exp            hubExpect
+	Verdict        string // real verdict (handshake)
+	Err            string
+	ProvOK         bool
+	ProvErr        string
+	Loaded         map[string]bool
+	Fetched        map[string]int
+	SawRej         bool
+	OcspHits       int
+	WorkDirEntries int
+	ChainVariant   string
+	Cdp            string
+	Hist           []hubStep
+	Shape          Shape
 }
 
 type hubPredicate func(c *vk.Ctx, o *hubObs)
@@ -387,6 +443,7 @@ func runHubWalk(c *vk.Ctx, cfg HubCfg, walk []*graph.Edge, shape Shape, seed int
 		json.Unmarshal(e.Expect, &exp)
 		obs := &hubObs{Cfg: cfg, Op: op, Exp: exp, Shape: shape}
 		before := map[string]int{"D": h.hits("D"), "U": h.hits("U")}
+		ocspBefore := h.org.Hits(pathOCSP)
 		name := op[0].(string)
 		real := map[string]any{}
 		switch name {
@@ -446,6 +503,10 @@ func runHubWalk(c *vk.Ctx, cfg HubCfg, walk []*graph.Edge, shape Shape, seed int
 					c.Drift("bgload-timeout")
 				}
 			}
+		case "handshake-nochain":
+			r := h.w.HandshakeTimeout(nil, 30*time.Second)
+			obs.Verdict, obs.Err = r.Verdict, r.Err
+			real["verdict"] = r.Verdict
 		case "cleanup":
 			if err := h.w.Cleanup(); err != nil {
 				real["cleanup_err"] = err.Error()
@@ -454,6 +515,11 @@ func runHubWalk(c *vk.Ctx, cfg HubCfg, walk []*graph.Edge, shape Shape, seed int
 		obs.Loaded = h.realLoaded()
 		obs.Fetched = map[string]int{"D": h.hits("D") - before["D"], "U": h.hits("U") - before["U"]}
 		obs.SawRej = h.sawRej
+		obs.OcspHits = h.org.Hits(pathOCSP) - ocspBefore
+		obs.ChainVariant = h.chainVariant
+		if ents, err := os.ReadDir(h.w.WorkDir); err == nil {
+			obs.WorkDirEntries = len(ents)
+		}
 		real["loaded"] = obs.Loaded
 		real["fetched"] = obs.Fetched
 		hist = append(hist, hubStep{Op: e.Op, Expect: e.Expect, Real: real})
@@ -495,7 +561,7 @@ func hubDrift(cfg HubCfg, name string, o *hubObs) string {
 		if !o.ProvOK {
 			return ""
 		}
-	case "handshake":
+	case "handshake", "handshake-nochain":
 		if o.Verdict != o.Exp.Verdict {
 			return "verdict:" + o.Exp.Verdict + "->" + o.Verdict
 		}
